@@ -54,6 +54,7 @@ mut('C17','exit-zero-on-read-error',Z, '    let document = XmlReader::read_xml(&
 mut('C17','tempfile-rename-unchecked',Z, '    let mut file = File::create(output_file).expect("can not create file");\n    file.write_all(&generated).expect("can not write file");', '    let tmp = output_file.with_extension("rs.tmp");\n    let mut file = File::create(&tmp).expect("can not create file");\n    file.write_all(&generated).expect("can not write file");\n    drop(file);\n    let _ = std::fs::rename(&tmp, &output_file);')
 mut('C17','tempfile-sync-unchecked',Z, '    let mut file = File::create(output_file).expect("can not create file");\n    file.write_all(&generated).expect("can not write file");', '    let tmp = output_file.with_extension("rs.tmp");\n    let mut file = File::create(&tmp).expect("can not create file");\n    let _ = file.write_all(&generated);\n    file.sync_all().expect("can not sync");\n    drop(file);\n    std::fs::rename(&tmp, &output_file).expect("can not rename");')
 mut('C17','PRESERVING-tempfile-rename-checked',Z, '    let mut file = File::create(output_file).expect("can not create file");\n    file.write_all(&generated).expect("can not write file");', '    let tmp = output_file.with_extension("rs.tmp");\n    let mut file = File::create(&tmp).expect("can not create file");\n    file.write_all(&generated).expect("can not write file");\n    file.sync_all().expect("can not sync");\n    drop(file);\n    std::fs::rename(&tmp, &output_file).expect("can not rename");', expect='silent')
+mut('C17','stale-lock-after-failure',Z, '    let mut file = File::create(output_file).expect("can not create file");\n    file.write_all(&generated).expect("can not write file");', '    let lock = output_file.with_extension("lock");\n    if lock.exists() {\n        eprintln!("another zeep run is writing {}", output_file.display());\n        std::process::exit(1);\n    }\n    File::create(&lock).expect("can not create lock");\n    let mut file = File::create(&output_file).expect("can not create file");\n    file.write_all(&generated).expect("can not write file");\n    std::fs::remove_file(&lock).expect("can not remove lock");')
 mut('C17','PRESERVING-bufwriter-checked-flush',Z, '    file.write_all(&generated).expect("can not write file");', '    let mut buffered = std::io::BufWriter::new(&mut file);\n    buffered.write_all(&generated).expect("can not write file");\n    buffered.flush().expect("can not flush file");', expect='silent')
 
 os.makedirs(OUT, exist_ok=True)
